@@ -41,6 +41,12 @@ CATALOGUE = [
                   dict(interval=1, slow=4, dopoll=[(2, 'ok')], reads={'a': [(1, 'ok')], 'b': [(1, 'ok')]}, readable=False),
                   dict(interval=8, slow=16, dopoll=[(1, 'other')], reads={'a': [(4, 'silent')]}),
                   dict(interval=4, slow=8, dopoll=[(1, 'ok')], reads={'a': [(0, 'ok')]}, nopoll=['c'])], horizon=250),
+    # read handlers: ReadHandler polls each key, CommonReadHandler only the first one, nopoll still wins
+    dict(modules=[dict(interval=8, slow=16, dopoll=[(1, 'ok')], reads={'a': [(1, 'ok')]},
+                       rh=dict(keys=['e', 'f'], script=[(1, 'ok'), (1, 'secop')]),
+                       crh=dict(keys=['g', 'h'], script=[(2, 'ok'), (1, 'other')]), nopoll=['c']),
+                  dict(interval=4, slow=8, dopoll=[(0, 'ok')], reads={}, crh=dict(keys=['g', 'h', 'k'], script=[(1, 'ok')]))],
+         horizon=200),
     dict(modules=[dict(interval=8, slow=24, dopoll=[(1, 'ok')], reads={'a': [(1, 'ok')]})],
          env=[(30, 'fast', 0, (True, 0)), (50, 'fast', 0, (False, 0)), (80, 'trigger', 0, True), (81, 'trigger', 0, False)], horizon=160),
     dict(modules=[dict(interval=16, slow=40, dopoll=[(1, 'ok')], reads={'a': [(1, 'ok')]}),
@@ -62,6 +68,10 @@ def random_scenario(rnd):
                  nopoll=['c'] if rnd.random() < 0.4 else [], readable=rnd.random() < 0.5 or mi == 0)
         if rnd.random() < 0.3:
             m['writes'] = {'w': 1.0}
+        if rnd.random() < 0.25:
+            m['rh'] = dict(keys=['e', 'f'], script=[(rnd.choice(durs[:5]), rnd.choice(outs)) for _ in range(rnd.randint(1, 2))])
+        if rnd.random() < 0.25:
+            m['crh'] = dict(keys=['g', 'h'], script=[(rnd.choice(durs[:5]), rnd.choice(outs)) for _ in range(rnd.randint(1, 2))])
         mods.append(m)
     env = []
     for _ in range(rnd.randint(0, 3)):
@@ -84,9 +94,18 @@ def random_scenario(rnd):
 def alpha(sc, r):
     mods = []
     for m in sc['modules']:
+        polled = ['read_' + p for p in m.get('reads', {})]
+        nopoll = ['read_' + p for p in m.get('nopoll', [])]
+        durs = [d for sc_ in m.get('reads', {}).values() for d, _ in sc_]
+        if m.get('rh'):
+            polled += ['read_' + p for p in m['rh']['keys']]
+            durs += [d for d, _ in m['rh'].get('script') or [(0, 'ok')]]
+        if m.get('crh'):
+            polled.append('read_' + m['crh']['keys'][0])
+            nopoll += ['read_' + p for p in m['crh']['keys'][1:]]     # only the first key of a common read handler is polled
+            durs += [d for d, _ in m['crh'].get('script') or [(0, 'ok')]]
         mods.append({'interval': m['interval'], 'slow': m['slow'], 'dmax': max(d for d, _ in m['dopoll']),
-                     'polled': ['read_' + p for p in m.get('reads', {})], 'nopoll': ['read_' + p for p in m.get('nopoll', [])],
-                     'rmax': max([d for sc_ in m.get('reads', {}).values() for d, _ in sc_] or [0])})
+                     'polled': polled, 'nopoll': nopoll, 'rmax': max(durs or [0])})
     tr = [{'ev': 'cfg', 'modules': mods}]
     base = [m['interval'] for m in sc['modules']]
     for e in r['log']:
